@@ -28,6 +28,9 @@ struct Case {
 }
 
 fn num_text(v: i128) -> String {
+    if v == i64::MIN as i128 {
+        return "(-9223372036854775807-1)".to_string();
+    }
     if v < 0 {
         format!("-{}", -v)
     } else {
@@ -93,6 +96,7 @@ fn numeric_probe_values(lo: i64, hi: i64, wide: i64) -> Vec<i128> {
     }
     v.push(i64::MAX as i128);
     v.push(-(i64::MAX as i128));
+    v.push(i64::MIN as i128);
     v.sort();
     v.dedup();
     v
@@ -149,10 +153,14 @@ fn gen_cases(ctx: &Ctx) -> Vec<Case> {
                             let is_rel = matches!(*op, Opk::Rel { .. });
                             if is_rel {
                                 // value is the displacement; the written target is pc+1+d
-                                if v.abs() > (1i128 << 40) {
+                                if v == i64::MIN as i128 {
+                                    // the target itself is i64::MIN
+                                    ops[i] = "(-9223372036854775807-1)".to_string();
+                                } else if v.abs() > (1i128 << 40) {
                                     continue;
+                                } else {
+                                    ops[i] = op_text(form, i, v as i64);
                                 }
-                                ops[i] = op_text(form, i, v as i64);
                             } else if let Opk::Disp { reg, .. } = *op {
                                 if v < 0 {
                                     ops[i] = format!("{}+({})", reg, num_text(v));
@@ -354,7 +362,7 @@ pub fn run(ctx: &Ctx) -> i32 {
     ctx.exhaustive.store(true, std::sync::atomic::Ordering::Relaxed);
     fw::finish(
         ctx,
-        "per instruction form and legal anchor tuple, one operand at a time leaves its ISA domain: every register r0..r31 in each register position, every number in [lo-300, hi+300] plus ±2^k, ±2^k±1 and ±i64::MAX in each numeric position, operand-kind substitutions, 0..arity-1 and arity+1 operands, and for every two-operand form the complete cross product every register x every register / boundary value (thorough: two operands out at once, ±70000 windows on 16/22-bit fields); exhaustive for those windows; distinct_nontrivial = distinct must-reject source lines",
+        "per instruction form and legal anchor tuple, one operand at a time leaves its ISA domain: every register r0..r31 in each register position, every number in [lo-300, hi+300] plus ±2^k, ±2^k±1, ±i64::MAX and i64::MIN in each numeric position, operand-kind substitutions, 0..arity-1 and arity+1 operands, and for every two-operand form the complete cross product every register x every register / boundary value (thorough: two operands out at once, ±70000 windows on 16/22-bit fields); exhaustive for those windows; distinct_nontrivial = distinct must-reject source lines",
         &[
             "legality = refmodel/isa.rs operand domains (manual transcription)",
             "8-bit immediates written as -128..-1 are accepted as two's complement or rejected (statement silent); ld/ldd and st/std cross-spellings are not probed except X+q, which no instruction encodes",
